@@ -14,7 +14,8 @@
 (*                     "open" (git-sizer ended before the command did)     *)
 (*             gd      GIT_DIR of the child, norepl: --no-replace-objects  *)
 (*                     given, graft: GIT_GRAFT_FILE of the child           *)
-(*   exit    0 | 1,  stdout  "none" | "usage" | "version" | "report"       *)
+(*   exit    0 | 1,  stdout  "none" | "usage" | "version" | "report",      *)
+(*   errmsg  an "error: ..." line was written to stderr                    *)
 (* Option parsing, skipped look-ups and rejections are silent steps that   *)
 (* TLC infers.  One initial state per run; a run is accepted when all its  *)
 (* events are consumed and Proto ends with the recorded status and output. *)
@@ -40,7 +41,8 @@ EnvOK(e) ==
   ELSE /\ e.norepl /\ e.graft = "/dev/null" /\ e.gd # "" /\ (gdir = "" \/ e.gd = gdir)
        /\ (Runs[run].want = "" \/ e.gd = Runs[run].want)
 
-Ends == /\ exit' = Runs[run].exit /\ stdout' = Runs[run].stdout /\ pos' = Len(Events) + 1
+Ends == /\ exit' = Runs[run].exit /\ stdout' = Runs[run].stdout /\ errmsg' = Runs[run].errmsg
+        /\ pos' = Len(Events) + 1
 
 Consume ==
   /\ pos <= Len(Events)
